@@ -360,7 +360,7 @@ static System make_system(long id, const Plan & p, Rng & g)
 static std::vector<Plan> make_plans(const std::string & tier, Rng & g, long nbig)
 {
   std::vector<Plan> ps;
-  const int reps = (tier == "thorough") ? 40 : 1;
+  const int reps = (tier == "thorough") ? 60 : 1;
   // every shape up to 6 x 6, every rank pattern, integer and floating entries
   for (int rep = 0; rep < reps; ++rep)
     for (int m = 1; m <= 6; ++m)
@@ -375,10 +375,11 @@ static std::vector<Plan> make_plans(const std::string & tier, Rng & g, long nbig
   for (long i = 0; i < nmid; ++i) ps.push_back({7 + g.idx(14), 7 + g.idx(14), g.idx(4), g.idx(3), i % 2 == 0});
   for (long i = 0; i < nbig; ++i) {
     int m = 21 + g.idx(20), n = 21 + g.idx(20);
-    if (i % 4 == 0) m = n = 40;
+    int pat = g.idx(4);
+    if (i % 4 == 0) { m = n = 40; pat = static_cast<int>((i / 4) % 4); }
     if (i % 4 == 1) { m = 40; n = 21 + g.idx(20); }
-    if (i % 4 == 2) { n = 40; m = 21 + g.idx(20); }
-    ps.push_back({m, n, static_cast<int>(i % 4 == 0 ? (i / 4) % 4 : g.idx(4)), g.idx(3), i % 2 == 0 || i % 8 == 1});
+    if (i % 4 == 2) { n = 40; m = 21 + g.idx(19); if ((i / 4) % 2 == 0) pat = 0; }   // strictly wide
+    ps.push_back({m, n, pat, g.idx(3), (i / 4) % 3 != 2});
   }
   return ps;
 }
